@@ -1406,7 +1406,10 @@ def check_gates(ctx, stats, open_f):
         items.append(("reject", k, src, False, None))
     for k, src in G.REJECT_STD.items():
         items.append(("reject", k, src, True, None))
-    for k, (src, exp) in G.ACCEPT.items():
+    accept = dict(G.ACCEPT)
+    if not ctx.quick:
+        accept.update(G.permutation_recursion_programs(full=True))     # the whole type x tail/non-tail product
+    for k, (src, exp) in accept.items():
         items.append(("accept", k, src, True, exp))
     for fid, src in G.KNOWN_PROBES.items():
         if fid in open_f:
